@@ -25,8 +25,11 @@ pub fn run(args: &[String]) {
         let (x0, xend) = if back { (0.0, -span) } else { (0.0, span) };
         let rtol = 10f64.powf(-rng.range(3.0, 9.0));
         let atol = rtol * 1e-2;
-        let p = Prob::new(kind);
+        let mut p = Prob::new(kind);
         let y0 = p.y0();
+        // a third of the cases carry a terminal event g = t - c (c inside the span) for the solve_ivp part
+        let with_terminal = rng.chance(0.35);
+        let tc = x0 + (xend - x0) * rng.range(0.05, 0.95);
         // ---- low-level callback interpolant
         let mut rec = Recorder::new();
         let res = match method {
@@ -57,6 +60,9 @@ pub fn run(args: &[String]) {
             }
         }
         // ---- solve_ivp level
+        if with_terminal {
+            p.events = vec![EventSpec { a: 1.0, b: vec![0.0; p.n()], c: tc, dir: 0, terminal: Some(1) }];
+        }
         if bad.is_none() {
             let opts = Options::builder().method(method).rtol(rtol).atol(atol).dense_output(true).build();
             match solve_ivp(&p, x0, xend, &y0, opts) {
@@ -84,8 +90,14 @@ pub fn run(args: &[String]) {
                                 break;
                             }
                         }
-                        let far = (b - a).abs() + 1.0;
-                        for t in [a.min(b) - far, a.max(b) + far] {
+                        // "clearly outside" is relative to the covered span, which must contain x0 and the last reported time
+                        let (s0, s1) = sol.sol_span().unwrap_or((f64::NAN, f64::NAN));
+                        let (lo, hi) = (s0.min(s1), s0.max(s1));
+                        if !(lo <= a.min(b) + 1e-12 && a.max(b) <= hi + 1e-12) {
+                            bad = Some(format!("covered span [{}, {}] does not contain the reported range [{}, {}]", s0, s1, a, b));
+                        }
+                        let far = (hi - lo).abs() + 1.0;
+                        for t in [lo - far, hi + far] {
                             match sol.sol(t) {
                                 Err(Error::Interpolation(InterpolationError::OutOfRange { .. })) => {}
                                 other => {
@@ -116,8 +128,8 @@ pub fn run(args: &[String]) {
             n_fail += 1;
         }
         println!(
-            "{{\"kind\":\"dense\",\"case\":{},\"problem\":\"{:?}\",\"method\":\"{}\",\"x0\":{},\"xend\":{},\"rtol\":{},\"atol\":{},\"status\":\"{}\",\"steps\":{},\"ok\":{},\"why\":{:?}}}",
-            case, kind, method_name(method), x0, jnum(xend), jnum(rtol), jnum(atol), status, rec.cbs.len().saturating_sub(1), bad.is_none(), bad.unwrap_or_default()
+            "{{\"kind\":\"dense\",\"case\":{},\"problem\":\"{}\",\"method\":\"{}\",\"x0\":{},\"xend\":{},\"rtol\":{},\"atol\":{},\"status\":\"{}\",\"steps\":{},\"ok\":{},\"why\":{:?}}}",
+            case, if with_terminal { format!("{:?}+terminal@{}", kind, tc) } else { format!("{:?}", kind) }, method_name(method), x0, jnum(xend), jnum(rtol), jnum(atol), status, rec.cbs.len().saturating_sub(1), bad.is_none(), bad.unwrap_or_default()
         );
     }
     // zero-length run
